@@ -18,8 +18,10 @@ ACQ = {
     'std::sync::Mutex::lock': 'ex', 'std::sync::Mutex::try_lock': 'ex',
 }
 PANICKY = re.compile(r'^(std::option::Option::(unwrap|expect)|std::result::Result::(unwrap|expect|unwrap_err|expect_err)|'
-                     r'core::panicking::.*|std::rt::.*panic.*|std::ops::Index::index|std::ops::IndexMut::index_mut|'
-                     r'std::vec::Vec::(remove|swap_remove|insert)|core::option::unwrap_failed|core::result::unwrap_failed)$')
+                     r'core::panicking::.*|std::rt::.*panic.*|std::ops::Index::index|std::ops::IndexMut::index_mut|<.* as std::ops::Index(Mut)?<.*>>::index(_mut)?|'
+                     r'std::vec::Vec::(remove|swap_remove|insert|split_off|drain|split_at\w*|copy_from_slice)|core::option::unwrap_failed|core::result::unwrap_failed|'
+                     r'std::string::String::(truncate|remove|insert|insert_str|split_off|drain|replace_range)|str::(split_at\w*)|\[T\]::(split_at\w*|copy_from_slice|swap|chunks\w*|windows)|'
+                     r'std::collections::VecDeque::(remove|insert|swap|split_off)|std::cell::RefCell::(borrow|borrow_mut)|std::process::(exit|abort)|std::thread::sleep)$')
 FN_TRAITS = ('std::ops::FnMut::call_mut', 'std::ops::Fn::call', 'std::ops::FnOnce::call_once')
 NODE_ITERS = re.compile(r'::node::(IterOut|IterIn|NodeIterator)$')
 
